@@ -384,6 +384,149 @@ def run_gmres(case):
             'iters': [int(i) for i in iters]}
 
 
+class CountingOp:
+    """stands in for A: logs every matvec call as an event of Model/KrylovGmres.v (which vector, in which phase)."""
+
+    def __init__(self, A, ev):
+        self.A = A
+        self.ev = ev
+        self.sol = None
+        self.in_reset = False
+
+    def matvec(self, v):
+        sol = self.sol
+        if sol is None:                       # GMRES.__init__: residual of the initial guess
+            self.ev.append([14, 0, 0, 0])
+        elif self.in_reset:                   # residual of the current x for the next cycle
+            self.ev.append([14 if v is sol.x else 99, len(sol.total_iters), 0, 0])
+        elif v is sol.qs[-1]:                 # Arnoldi step k of cycle c on len(qs) Krylov vectors
+            self.ev.append([11, len(sol.total_iters), len(sol.total_error[-1]) - 1, len(sol.qs)])
+        elif v is sol.x:                      # the returned residual
+            self.ev.append([15, 0, 0, 0])
+        else:
+            self.ev.append([99, 0, 0, 0])
+        return self.A.matvec(v)
+
+
+def run_gmres_restart(case):
+    """GMRES with restarts, observed from outside: the solver object is run once plainly and once with `reset`
+    wrapped (instance attribute) and a counting operator; recorded per cycle: x after the update, Gram matrix of
+    the Krylov vectors qs, and the state after every (re)start (qs, r_norm, e1, H, sine, cosine)."""
+    import tenpy.linalg.np_conserved as npc
+    from tenpy.linalg import krylov_based
+    spec = case['spec']
+    M = G.dense_operator(spec)
+    n = M.shape[0]
+    cplx = bool(spec['cplx'] or case['diag_shift'][1] != 0)
+    M = M + complex(*case['diag_shift']) * np.eye(n)
+    leg = make_leg(npc, spec['leg'])
+    b = G.start_vector(spec, M) * case['b_scale']
+    x0 = G.extra_vectors(spec, M, 1, tag=3)[0] * case['x0_scale']
+    npc_cplx = cplx or not case.get('real_dtype')
+    if not npc_cplx:
+        M = M.real
+    A = to_npc_op(npc, M.astype(complex) if npc_cplx else M, leg)
+    opts = {k: v for k, v in case['opts'].items() if v is not None}
+
+    def dense(a):
+        return G.enc(a.to_ndarray())
+
+    def gram_dev(qs):
+        """max |<q_i|q_j> - delta_ij| for all leading sub-lists: dev[l] belongs to qs[:l+1]"""
+        Q = np.array([q.to_ndarray() for q in qs])
+        Gm = Q.conj() @ Q.T - np.eye(len(qs))
+        return [float(np.max(np.abs(Gm[:l + 1, :l + 1]))) for l in range(len(qs))]
+
+    def start_state(sol):
+        e1 = sol.e1.to_ndarray()
+        return {'n_qs': len(sol.qs), 'q0': dense(sol.qs[0]), 'r_norm': float(np.real(sol.r_norm)),
+                'r_norm_imag': float(np.imag(sol.r_norm)), 'e1': G.enc(e1), 'len_e1': int(len(e1)),
+                'H_zero': bool(np.all(sol.H.to_ndarray() == 0)), 'H_shape': [int(s) for s in sol.H.shape],
+                'sc_zero': bool(np.all(sol.sine == 0) and np.all(sol.cosine == 0)),
+                'len_sc': [int(len(sol.sine)), int(len(sol.cosine))],
+                'n_rs': len(sol.rs), 'last_error': [float(np.real(e)) for e in sol.total_error[-1]]}
+
+    def start_code(sol, cycle):
+        """bit mask of the violated restart invariants (0 = the state Model/KrylovGmres.v calls a fresh start)"""
+        r = sol.rs[-1]
+        nr = npc.norm(r)
+        N_max = sol.N_max
+        code = 0
+        if len(sol.qs) != 1:
+            code |= 1
+        if not (sol.r_norm == nr):                                   # the ABSOLUTE norm of the residual (same float)
+            code |= 2
+        e1 = sol.e1.to_ndarray()
+        if not (e1.shape == (N_max + 1,) and e1[0] == sol.r_norm and np.all(e1[1:] == 0)):
+            code |= 4
+        q0 = r.copy()
+        q0.iscale_prefactor(1.0 / nr)
+        if not np.array_equal(sol.qs[0].to_ndarray(), q0.to_ndarray()):
+            code |= 8
+        H = sol.H.to_ndarray()
+        if not (H.shape == (N_max + 1, N_max) and np.all(H == 0) and sol.sine.shape == (N_max,) and np.all(sol.sine == 0)
+                and sol.cosine.shape == (N_max,) and np.all(sol.cosine == 0)):
+            code |= 16
+        if not (len(sol.rs) == cycle + 1 and len(sol.total_error) == cycle + 1 and len(sol.total_error[-1]) == 1
+                and sol.total_error[-1][0] == nr / sol.b_norm):
+            code |= 32
+        return code
+
+    def one(trace):
+        xv = to_npc_vec(npc, x0, leg, npc_cplx, spec['sector'])
+        bv = to_npc_vec(npc, b, leg, npc_cplx, spec['sector'])
+        ev = []
+        op = CountingOp(A, ev) if trace else A
+        sol = krylov_based.GMRES(op, xv, bv, dict(opts))
+        rec = {}
+        if trace:
+            op.sol = sol
+            ev.append([10, 0, start_code(sol, 0), 0])
+            rec['starts'] = [start_state(sol)]
+            rec['cycles'] = []
+            orig_reset = sol.reset
+
+            def reset():
+                c = len(sol.total_iters) - 1
+                ev.append([13, c, 0, 0])
+                rec['cycles'].append({'x': dense(sol.x), 'gram': gram_dev(sol.qs), 'n_qs': len(sol.qs)})
+                op.in_reset = True
+                try:
+                    orig_reset()
+                finally:
+                    op.in_reset = False
+                ev.append([10, c + 1, start_code(sol, c + 1), 0])
+                rec['starts'].append(start_state(sol))
+            sol.reset = reset
+
+            class TracedX(npc.Array):
+                def iadd_prefactor_other(s, prefactor, other):
+                    idx = [i for i, q in enumerate(sol.qs) if q is other]
+                    ev.append([12, len(sol.total_iters) - 1, idx[0] if idx else 99, 0])
+                    return npc.Array.iadd_prefactor_other(s, prefactor, other)
+            sol.x.__class__ = TracedX
+        try:
+            x, res, total_error, iters = sol.run()
+        finally:
+            if trace:
+                sol.x.__class__ = npc.Array
+        rec.update({'x': dense(x), 'res': float(np.real(res)), 'iters': [int(i) for i in iters],
+                    'total_error': [[float(np.real(e)) for e in te] for te in total_error],
+                    'x_is_solver_x': bool(x is sol.x), 'qtotal_ok': bool(np.all(x.qtotal == bv.qtotal)),
+                    'b_untouched': bool(np.array_equal(bv.to_ndarray(), b if npc_cplx else b.real)),
+                    'x0_untouched': bool(np.array_equal(xv.to_ndarray(), x0 if npc_cplx else x0.real))})
+        if trace:
+            rec['events'] = [[int(v) for v in e] for e in ev]
+            if len(rec['cycles']) < len(iters):     # the last cycle converged: no reset was executed after it
+                rec['cycles'].append({'x': dense(sol.x), 'gram': gram_dev(sol.qs), 'n_qs': len(sol.qs)})
+        return rec
+    try:
+        plain = one(False)
+    except Exception as e:
+        return {'error': type(e).__name__ + ': ' + str(e)[:200], 'tb': traceback.format_exc()[-600:]}
+    return {'plain': plain, 'traced': one(True)}
+
+
 def run_gs(case):
     import tenpy.linalg.np_conserved as npc
     from tenpy.linalg import krylov_based
@@ -482,8 +625,8 @@ def run_argsort(case):
 
 def main():
     payload = json.load(open(sys.argv[1]))
-    f = {'lanczos': run_lanczos, 'arnoldi': run_arnoldi, 'gmres': run_gmres, 'gs': run_gs, 'flat': run_flat,
-         'argsort': run_argsort}
+    f = {'lanczos': run_lanczos, 'arnoldi': run_arnoldi, 'gmres': run_gmres, 'gmresr': run_gmres_restart, 'gs': run_gs,
+         'flat': run_flat, 'argsort': run_argsort}
     res = []
     for c in payload['cases']:
         try:
